@@ -456,6 +456,12 @@ def check_C09(tier, seed, replay=None):
 
 def check_C10(tier, seed, replay=None):
     corr = _corr_generic("distcases", "C10", "Dist.opt_distribute vs the AST produced by the real DistributedExecutionOptimizer (1..3 engines)", 150, 1500)
+    # the composite model with remote executions (read-back with lookback 0) and coalesce nodes vs the real distributed engine
+    corr = _corr_multi(corr, _corr_generic("disttreecases", "C10",
+                       "Trees.jrun on the plan of the real DistributedExecutionOptimizer (JRemote: the subquery run on the engine's own "
+                       "partition and read back with lookback 0, Remote.v; JConcat: coalesce) vs the result of the real distributed engine "
+                       "over 2 or 3 local engines on a random partition of the series (whole nested queries as in treecases)",
+                       30, 300, shards_quick=8, shards_thorough=16))
     return ref_family_check("C10", tier, seed, [("dist", "", 1500), ("dist", "agg", 1200), ("dist", "range", 500)],
                             [("dist", "", 30000), ("dist", "agg", 30000), ("dist", "range", 10000), ("dist", "noties", 10000)], corr=corr)
 
